@@ -96,6 +96,7 @@ impl<'lifespan> ChemicalCompositionVec<'lifespan> {
     }
 
     pub fn iter_mut(&mut self) -> IterMut<(ElementSpecification<'lifespan>, i32)> {
+        self.mass_cache = None;
         self.composition.iter_mut()
     }
 
@@ -270,6 +271,7 @@ impl<'lifespan, 'transient, 'outer: 'transient> ChemicalCompositionVec<'lifespan
 
     #[inline]
     pub(crate) fn _mul_by(&mut self, scaler: i32) {
+        self.mass_cache = None;
         self.composition.iter_mut().for_each(|(_, v)| {
             *v *= scaler;
         })
